@@ -15,7 +15,6 @@ import (
 	"go/constant"
 	"go/token"
 	"os"
-	"path/filepath"
 	"sort"
 	"strings"
 )
@@ -234,7 +233,7 @@ func (t *translator) run64(abs string) string {
 	b.WriteString("   computation M (result) = option (result * bool): None = run-time panic, the flag = no operation left the int64 range.\n")
 	b.WriteString("   Source files (relative to the repository root) and their SHA-256:\n")
 	for _, f := range files {
-		data, err := os.ReadFile(filepath.Join(abs, filepath.FromSlash(f)))
+		data, err := os.ReadFile(sourcePath(abs, f))
 		if err != nil {
 			failf("%v", err)
 		}
